@@ -129,6 +129,13 @@ CONTROLS = [
     ('x19-paste-leaves-blank', 'X19', 'syn', 'rewrite-wrong', [(PPF, """.replace("``", "")""", """.replace("``", " ")""", 1)]),
     ('x19-formal-appended-verbatim', 'X19', 'syn', 'formal-not-substituted', [(PPF, '                    replaced.push_str(*value);', '                    replaced.push_str(&text);', 1)]),
     ('x19-lookup-by-macro-name', 'X19', 'syn', 'lookup-key', [(PPF, 'if let Some(value) = arg_map.get(&text) {', 'if let Some(value) = arg_map.get(&id) {', 1)]),
+    ('g16-bracket-group-uses-top-level', 'G16', 'syn', 'comma-splits-inside-brackets', [(CD, 'triple(tag("["), opt(define_argument_inner), tag("]"))', 'triple(tag("["), opt(define_argument), tag("]"))', 1)]),
+    ('g16-brace-not-a-delimiter', 'G16', 'syn', 'delimiter-not-stopped', [(CD, 'is_not(",([{}])\\""),', 'is_not(",([])\\""),', 1)]),
+    ('g17-argument-string-ends-at-escaped-quote', 'G17', 'syn', 'define_argument_str:escaped-quote-ends-string', [(CD,
+        '    let (s, b) = many0(alt((\n        is_not("\\\\\\""),\n        map(pair(tag("\\\\"), take(1usize)), |(x, y)| {\n            concat(x, y).unwrap()\n        }),\n    )))(s)?;\n    let (s, c) = tag("\\"")(s)?;\n\n    let mut ret = None;\n    for x in b {\n        ret = if let Some(ret) = ret {\n            Some(concat(ret, x).unwrap())\n        } else {\n            Some(x)\n        };\n    }\n\n    let a = if let Some(b) = ret {\n        let a = concat(a, b).unwrap();\n        concat(a, c).unwrap()\n    } else {\n        concat(a, c).unwrap()\n    };\n    Ok((s, a))',
+        '    let (s, b) = many0(is_not("\\""))(s)?;\n    let (s, c) = tag("\\"")(s)?;\n\n    let mut ret = None;\n    for x in b {\n        ret = if let Some(ret) = ret {\n            Some(concat(ret, x).unwrap())\n        } else {\n            Some(x)\n        };\n    }\n\n    let a = if let Some(b) = ret {\n        let a = concat(a, b).unwrap();\n        concat(a, c).unwrap()\n    } else {\n        concat(a, c).unwrap()\n    };\n    Ok((s, a))', 1)]),
+    ('g17-lone-backslash-alternative', 'G17', 'syn', 'string_literal_impl:escape-not-paired', [(PARSER + 'expressions/strings.rs',
+        '        map(pair(tag("\\\\"), take(1usize)), |(x, y)| {\n            concat(x, y).unwrap()\n        }),', '        tag("\\\\\\""),\n        tag("\\\\"),', 1)]),
     ('s1-version-stack-not-reset', 'S1', 'mir', 'not-reset:CURRENT_VERSION', [(PARSER + 'lib.rs', '    clear_directive();\n    clear_version();\n}', '    clear_directive();\n}', 1)]),
     ('s2-grammar-function-exported', 'S2', 'mir', 'source_text', [(PARSER + 'source_text/system_verilog_source_text.rs', 'pub(crate) fn source_text(s: Span)', 'pub fn source_text(s: Span)', 1)]),
     ('s3-scope-leak-on-error-path', 'S3', 'mir', 'text_macro_usage:unbalanced', [(CD,
